@@ -43,6 +43,16 @@ def main():
             if os.path.basename(line) == base and not line.startswith('_out'):
                 demo_rel.append(line)
     demo_rel = sorted(set(demo_rel))
+    mp0 = os.path.join(dest, 'meta.json')
+    if not demo_rel and os.path.exists(mp0):
+        # re-evaluation: the worktree was cleaned by the first run; the demonstration is restored from _out
+        demo_rel = json.load(open(mp0)).get('demo_rel', [])
+        for rel in demo_rel:
+            src = os.path.join(out, os.path.basename(rel))
+            if os.path.exists(src):
+                os.makedirs(os.path.dirname(os.path.join(wt, rel)) or wt, exist_ok=True)
+                shutil.copy(src, os.path.join(wt, rel))
+    meta['demo_rel'] = demo_rel
     stash = '/tmp/seed/%s.demo' % sid
     shutil.rmtree(stash, ignore_errors=True)
     os.makedirs(stash)
